@@ -2,7 +2,7 @@
    client impact.  Statements only; proofs are in Proofs/DifferProofs.v. *)
 From PyGql Require Import Schema.SchemaFull Schema.DifferModel Spec.DifferSpec Spec.DifferClientSpec
   Spec.DifferChangeSpec Proofs.DifferProofs Proofs.DifferEditProofs Proofs.DifferSoundProofs
-  Proofs.DifferClientProofs Proofs.DifferTrueProofs.
+  Proofs.DifferClientProofs Proofs.DifferTrueProofs Proofs.DifferGuardProofs.
 From Coq Require Import Permutation.
 
 (* Output positions: when the differ's (repaired) output predicate calls a
@@ -35,13 +35,15 @@ Theorem C20_reflexive : forall s, wf_schema s -> diff_model s s = [].
 Proof. exact diff_model_refl. Qed.
 Print Assumptions C20_reflexive.
 
-(* The multiset of changes does not depend on the order of type definitions. *)
+(* The multiset of changes does not depend on the order of the type
+   definitions nor on the order of the directive definitions. *)
 Theorem C20_order : forall o n o' n',
   names_unique t_name (s_types o) -> names_unique t_name (s_types n) ->
+  names_unique d_name (s_dirs o) -> names_unique d_name (s_dirs n) ->
   Permutation (s_types o) (s_types o') -> Permutation (s_types n) (s_types n') ->
-  s_dirs o = s_dirs o' -> s_dirs n = s_dirs n' ->
+  Permutation (s_dirs o) (s_dirs o') -> Permutation (s_dirs n) (s_dirs n') ->
   Permutation (diff_model o n) (diff_model o' n').
-Proof. exact diff_model_order. Qed.
+Proof. exact diff_model_order_full. Qed.
 Print Assumptions C20_order.
 
 (* Every elementary edit (30 kinds: adding, removing, retyping a type, field,
@@ -151,8 +153,8 @@ Print Assumptions C20_positions_sound.
    own in Proofs/DifferClientProofs.v (rule_*_kept, args_ok_kept, csel_ok_kept).
    Partial: OverlappingFieldsCanBeMerged is the one schema-dependent rule not
    in [op_ok] (a field becoming non-null can make two same-key fields of one
-   merged scope conflict); [doc_distinct_keys] is a decidable guard under which
-   that rule has no pair of fields to compare.  Hypotheses: the new schema has unique member names (it
+   merged scope conflict); see C20_no_breaking_sound_guarded for the documents
+   on which even that rule is covered.  Hypotheses: the new schema has unique member names (it
    passed validate()); both schemas agree on the introspection names and on
    the specified directives; same root operation types (roots are not compared
    by the differ and are not an elementary edit of the statement). *)
@@ -166,6 +168,29 @@ Proof.
   intros scalar_lit o n op H. apply operations_kept. apply has_breaking_false; exact H.
 Qed.
 Print Assumptions C20_no_breaking_sound_partial.
+
+(* The exclusion, precisely.  OverlappingFieldsCanBeMerged constrains the
+   response keys that occur at two different positions of one selection set
+   after flattening inline fragments and named spreads ([merge_rule cond], for
+   ANY pairwise condition [cond]: same response shape, same field and
+   arguments, mergeable sub-selections).  For every document whose selection
+   sets have pairwise distinct keys -- the decidable guard [doc_distinct_keys]
+   -- that rule holds against every schema, so for those documents validity
+   INCLUDING that rule is preserved when nothing BREAKING is reported. *)
+Theorem C20_no_breaking_sound_guarded : forall scalar_lit cond_o cond_n fuel o n op,
+  has_breaking (diff_model o n) = false ->
+  same_builtins o n -> wf_schema n ->
+  (forall dn d, find_dir (s_dirs o) dn = Some d -> d_specified d = true -> find_dir (s_dirs n) dn = Some d) ->
+  (forall k, root_of o k = root_of n k) ->
+  doc_distinct_keys fuel op = true ->
+  op_ok scalar_lit o op /\ merge_rule cond_o fuel op ->
+  op_ok scalar_lit n op /\ merge_rule cond_n fuel op.
+Proof.
+  intros scalar_lit cond_o cond_n fuel o n op H Hb Hw Hs Hr Hg [Hop _]. split.
+  - eapply C20_no_breaking_sound_partial; eassumption.
+  - apply guard_merge_rule. exact Hg.
+Qed.
+Print Assumptions C20_no_breaking_sound_guarded.
 
 (* non-vacuity: query ($v: Int!) { f(x: $v) ... on Query { f(x: 3) } ...F }
                  fragment F on Query { f(x: 3) }
